@@ -174,6 +174,9 @@ func checkC08(c *Ctx, r *Report) {
 	// securitySchemes are those of the configuration (shared rule with C04.c)
 	for _, e := range emitters {
 		checkSecuritySchemes(c, r, "C08.c", e.Ver, e.Pkg)
+		// every path a route is served under is a key of the document, with that route's operation
+		// and parameters under it (what the document validation judges) - shared with C01.b
+		checkPathItemOwnership(c, r, "C08.d", e.Ver, e.Pkg, e.Pkg+".setNewRouteOperation")
 	}
 
 	// the emitters read the IR, they never rewrite it (3.1 runs after 3.0 on the same slices)
